@@ -77,6 +77,16 @@ def check(prog, run):
     okconj = conj and len(parts) == 3
     if not okconj and not isinstance(test, (ast.BoolOp, ast.Compare)):
         okconj = None        # not a boolean combination of comparisons at all: form not recognised
+    if not okconj and okconj is not None:
+        # tolerances that are tested elsewhere (element-wise masks, earlier guards) take part in the decision in a way this rule does not
+        # follow: the conjunction cannot be judged from this `if` alone
+        in_test = {x.id for x in ast.walk(test) if isinstance(x, ast.Name)} & set(tol)
+        elsewhere = set()
+        for n in ast.walk(fi.node):
+            if isinstance(n, ast.Compare) and not any(n is x for x in ast.walk(ifn.test)):
+                elsewhere |= {x.id for x in ast.walk(n) if isinstance(x, ast.Name)} & set(tol)
+        if elsewhere - in_test:
+            okconj = None
     ob("R-neighbour", "three tests joined by `and`", okconj, f"`{astq.src(test, 80)}`", astq.src(test, 80), ifn)
     idx_exprs = {}
     curcols = {}
